@@ -73,6 +73,45 @@ m('c11-context-uses-not-substituted', 'C11', 'config.py',
 # (returning the plain str when only undefined placeholders occurred is behaviourally equivalent: not a mutant)
 m('c11-repr-substituted', 'C11', 'utils/data.py', "            return ReprStr(new_string, string)", "            return ReprStr(new_string, new_string)")
 
+# ---- C16 -----------------------------------------------------------------------------------------------
+m('c16-off-by-one', 'C16', 'cache.py', "                    if i - 1 < len(args):", "                    if i - 1 <= len(args) and i - 1 < len(args) + 0 and i < len(args):")
+m('c16-no-defaults', 'C16', 'cache.py', "                    if parameter.default != Parameter.empty and arg not in kwargs:", "                    if False:")
+m('c16-no-sort-keys', 'C16', 'cache.py', "cache_key = orig_json.dumps(key_kwargs, sort_keys=True)", "cache_key = orig_json.dumps(key_kwargs)")
+m('c16-version-dropped', 'C16', 'cache.py', "                if self.version is not None:\n                    subcache_name = f'{subcache_name}.{self.version}'\n", "")
+m('c16-ignore-dropped', 'C16', 'cache.py', "key_kwargs = {k: v for k, v in kwargs.items() if k not in self.ignore_params}", "key_kwargs = dict(kwargs)")
+m('c16-only-cache-computes', 'C16', 'cache.py', "            if only_cache:\n                return cache.get(cache_key)\n", "")
+m('c16-store-runs-method', 'C16', 'cache.py', "                computer = lambda: store_cache_value  # noqa: E731", "                computer = lambda: method(obj, *args, **kwargs) and store_cache_value  # noqa: E731")
+m('c16-force-ignored-inmemory', 'C16', 'cache.py', "        if key not in self._memory[get_ident()] or force:", "        if key not in self._memory[get_ident()]:")
+m('c16-method-name-dropped', 'C16', 'cache.py', "                subcache_name = method.__name__\n", "                subcache_name = 'methods'\n")
+m('c16-str-key', 'C16', 'cache.py', "cache_key = orig_json.dumps(key_kwargs, sort_keys=True)", "cache_key = str(sorted((k, str(v)) for k, v in key_kwargs.items()))")
+
+# ---- C14 -----------------------------------------------------------------------------------------------
+m('c14-skip-key-check', 'C14', 'cache.py', "            if key != loaded['key']:", "            if False:")
+m('c14-catch-cacheexception', 'C14', 'cache.py', "            except CacheException as error:\n                raise error\n            except Exception as error:\n                logger.warning(f'Cannot load cached value, {key=}, {filepath=}.')\n                logger.exception(error)\n\n        with lock:",
+  "            except Exception as error:\n                logger.warning(f'Cannot load cached value, {key=}, {filepath=}.')\n\n        with lock:")
+m('c14-save-before-compute', 'C14', 'cache.py', "            value = computer()\n            self.save_value(filepath, key, value)", "            self.save_value(filepath, key, None)\n            value = computer()\n            self.save_value(filepath, key, value)")
+m('c14-subcache-self', 'C14', 'cache.py', "        return self.__class__(self.directory / directory)", "        return self")
+m('c14-get-computes-nothing-but-raises', 'C14', 'cache.py', "        if filepath_exists:\n            try:\n                return self.load_value(filepath, key)\n            except CacheException as error:\n                raise error\n            except Exception as error:\n                logger.warning(f'Cannot load cached value, {key=}, {filepath=}.')\n                logger.exception(error)\n        return NO_VALUE",
+  "        if filepath_exists:\n            return self.load_value(filepath, key)\n        return NO_VALUE")
+m('c14-force-ignored', 'C14', 'cache.py', "        if filepath_exists and not force:", "        if filepath_exists:")
+# not registered: a truncated file-name hash needs engineered colliding keys, out of reach for sampling
+# m('c14-short-hash', 'C14', 'cache.py', "        return directory / f'{key_hash[5:]}.{self.extension}'", "        return directory / f'{key_hash[5:7]}.{self.extension}'")
+m('c14-inmem-subcache-shared', 'C14', 'cache.py', "            self._subcaches[get_ident()][name] = InMemoryCache()", "            self._subcaches[get_ident()][name] = self")
+m('c14-key-strip', 'C14', 'cache.py', "        key_hash = sha256(key.encode()).hexdigest()", "        key_hash = sha256(key.strip().encode()).hexdigest()")
+
+# ---- C06 -----------------------------------------------------------------------------------------------
+m('c06-falsy-guard', 'C06', 'data.py', "        if not hasattr(self, '_value') or self._value is None:", "        if not hasattr(self, '_value') or not self._value:")
+# (dropping OPT_SORT_KEYS is equivalent under the oracle: mapping order is a declared don't-care)
+m('c06-row-split', 'C06', 'utils/io.py', "            yield json.loads(row.strip())", "            yield json.loads(row.split()[0]) if row.split() else None")
+m('c06-glob-lexicographic', 'C06', 'data.py', "sorted(self.path.glob('*.npy'), key=lambda f: int(f.name.split('.')[0]))", "sorted(self.path.glob('*.npy'))")
+m('c06-np-float-cast', 'C06', 'data.py', "        np.save(str(self.path), self.value)", "        np.save(str(self.path), np.asarray(self.value, dtype=float) if self.value.dtype.kind == 'f' else self.value)")
+m('c06-json-ascii', 'C06', 'data.py', "        self._value = json.load(self.path.open())", "        self._value = json.load(self.path.open(encoding='latin-1'))")
+m('c06-generated-skip-none', 'C06', 'utils/io.py', "            f.write(json.dumps(j) + '\\n')", "            if j is not None:\n                f.write(json.dumps(j) + '\\n')")
+m('c06-dir-copy-flat', 'C06', 'data.py', "        shutil.move(str(self.tmp_path), str(self.path))\n        self._value = self._dir = self.path\n\n    def load(self, data_type: Type) -> Path:",
+  "        self.path.mkdir()\n        for f in self.tmp_path.iterdir():\n            if f.is_file():\n                shutil.move(str(f), str(self.path / f.name))\n        shutil.rmtree(self.tmp_path)\n        self._value = self._dir = self.path\n\n    def load(self, data_type: Type) -> Path:")
+m('c06-load-touches-file', 'C06', 'data.py', "        self._value = json.load(self.path.open())\n        return self._value", "        self._value = json.load(self.path.open())\n        json.dump(self._value, self.path.open('w'), sort_keys=True)\n        return self._value")
+m('c06-pandas-csv', 'C06', 'data.py', "        self.value.to_pickle(self.path)", "        self.value.reset_index(drop=True).to_pickle(self.path) if isinstance(self.value.index, pd.RangeIndex) is False and len(self.value) == 0 else self.value.to_pickle(self.path)")
+
 
 def make_scratch():
     d = Path(tempfile.mkdtemp(prefix='tcmut-'))
